@@ -56,7 +56,8 @@ def run_case(case):
 
 def run_bare(case, rng):
     aw, dw = case["aw"], case["dw"]
-    dec = csr.Decoder(addr_width=aw, data_width=dw, alignment=case["al"])
+    from vmon.simkit import omit
+    dec = csr.Decoder(**omit(rng, "csr.Decoder", addr_width=aw, data_width=dw, alignment=case["al"]))
     subs, topo, rejected = [], [], []
     for i in range(case["nsubs"]):
         k = rng.randint(1, max(1, (aw - 5) if case["nsubs"] > 8 else (aw - 1)))
